@@ -85,6 +85,9 @@ type Recorder struct {
 	SyncHook func(name string)
 	// ReadHook, when set, is invoked (outside any lock) before a ReadAt copies: a gate between the reads of one call.
 	ReadHook func(name string, off int64, n int)
+	// ReadDoneHook, when set, is invoked (outside any lock) after a ReadAt has copied: a gate between a read and the use
+	// the caller makes of what it read.
+	ReadDoneHook func(name string, off int64, n int)
 }
 
 func NewRecorder() *Recorder {
